@@ -20,7 +20,25 @@ def _scripts(n, seed, depth=(1, 2, 2, 3), multi=True, kinds=None, schemas=("sa",
                 stmts.append(sqlgen.Stmt("insert", g.target(), sqlgen.Select([sqlgen.Item(None, is_star=True)], [sqlgen.Group(sqlgen.Base(t.name, t.schema))])))
             if rnd.random() < 0.3 and t is not None:
                 stmts.append(sqlgen.Stmt("rename", sqlgen.Base(t.name, t.schema), None, None, {"to": g.target()}))
-        text = ";\n".join(sqlgen.render(s) for s in stmts)
+        parts = [sqlgen.render(s) for s in stmts]
+        if multi and rnd.random() < 0.3:
+            # DROP of: a table whose only lineage is an in-place UPDATE (no dataset read), an earlier target, an earlier source, a stranger
+            which = rnd.choice(["inplace", "inplace", "target", "source", "stranger"])
+            if which == "inplace":
+                tn = f"sa.tb_ip{i}" if rnd.random() < 0.5 else f"tb_ip{i}"
+                at = rnd.randrange(len(parts) + 1)
+                parts.insert(at, f"update {tn} set c_1 = c_2" + (", c_3 = c_4" if rnd.random() < 0.4 else ""))
+                parts.insert(rnd.randrange(at + 1, len(parts) + 1), f"drop table {tn}")
+            elif which == "target" and stmts[0].target is not None:
+                t0 = stmts[0].target
+                parts.append("drop table " + (t0.schema + "." if t0.schema else "") + t0.name)
+            elif which == "source":
+                reads = sorted(stmts[0].reads()) if hasattr(stmts[0], "reads") else []
+                if reads:
+                    parts.append("drop table " + reads[0].replace("<default>.", ""))
+            else:
+                parts.append(f"drop table tb_never{i}")
+        text = ";\n".join(parts)
         tags = set()
         for s in stmts:
             tags |= s.tags()
